@@ -267,6 +267,17 @@ def explore_case(ctx, case, stats, samples, budget_events=None, excs=("KeyboardI
     if base["trigger"] != mfinal["result"] or base["after"] != mfinal["after"]:
         ctx.violation(f"uninjected run differs from the model: impl {base['trigger']} {base['after']} model {mfinal['result']} {mfinal['after']}",
                       dict(case, failure=None), kind="correspondence")
+        # the tie is broken for this scenario: the property is asked of the implementation alone; the model of the unchanged
+        # code says which failing probes belong to a known finding (those it fails itself)
+        try:
+            mine = oracle(case, base)
+            known_there = oracle(case, {"after": mfinal["after"], "defs": base["defs"]}) if len(mfinal["after"]) == len(base["after"]) else []
+        except Exception:  # noqa
+            mine, known_there = [], []
+        new = [i for i in mine if i not in known_there]
+        if new:
+            ctx.violation(f"C18 violated: after the failed operation probe(s) {new} are neither a configuration error nor what a freshly built function over the "
+                          f"current definitions returns (the unchanged code's model passes there): {json.dumps(base['after'])[:300]}", dict(case, failure=None))
         return
     stats["traces_validated"] += 1
     natural = base["trigger"][1] == "config"
